@@ -4,3 +4,90 @@ from harness import toffset
 PROPERTY = 'C11'
 THOROUGH_SCALE = 2.0
 CELLS = toffset.putsrc_offset_cells('T1', False, ('tuple', 'deco2', 'call', 'binop'))
+
+
+# ---------------------------------------------------------------------------------------------------------------- P1
+import ast
+import io
+import tokenize
+
+from engine.h import Cell, assume, check, cover, fail
+from harness import pcommon as pc
+from fst import FST
+
+P_SRCS = {
+    'expr': 'x = f(a, (b) + c)  # k\ny = [d , e]\n',
+    'uni': 'ü = g("é", ñ [ 0 ])  # ç\nz = -ü\n',
+    'block': 'if a :  # h\n    b = ( 1,\n          2 )\nelse :\n    c\n',
+    'deco': '@ d1\n@d2 ( q )\ndef f ( a , b = 1 ) :\n    return a\n',
+    'misc': 'r = lambda p , * q : p if q else { 1 : 2 , ** s }\nt = a . b [ 1 : 2 ]\n',
+}
+
+
+def _gaps(src):
+    """(line0, col_start, col_end) of every inter-token gap on one line, in characters (tokenize reports characters)"""
+    out = []
+    prev = None
+    for t in tokenize.generate_tokens(io.StringIO(src).readline):
+        if t.type in (tokenize.NL, tokenize.NEWLINE, tokenize.INDENT, tokenize.DEDENT, tokenize.ENDMARKER, tokenize.COMMENT):
+            if t.type == tokenize.COMMENT:
+                prev = None
+            if t.type in (tokenize.NL, tokenize.NEWLINE):
+                prev = None
+            continue
+        if prev is not None and prev.end[0] == t.start[0] and prev.end[1] <= t.start[1]:
+            out.append((t.start[0] - 1, prev.end[1], t.start[1]))
+        prev = t
+    return out
+
+
+def _mk_gap(key):
+    src = P_SRCS[key]
+    gaps = _gaps(src)
+    lines = src.split('\n')
+
+    def fn(g: int, a: int, b: int, k: int):
+        assume(0 <= g < len(gaps) and 0 <= k <= 3)
+        gi = pc.pin(g, 0, len(gaps) - 1)
+        kk = pc.pin(k, 0, 3)
+        ln, c0, c1 = gaps[gi]
+        assume(c0 <= a <= b <= c1)
+        aa, bb = pc.pin(a, c0, c1), pc.pin(b, c0, c1)
+        with pc.untraced():
+            root = FST(src, 'exec')
+            pc.reset_globals()
+            # innermost node STRICTLY containing the spot, from CPython's own positions (bytes -> characters)
+            t = ast.parse(src)
+            best = None
+            for n, m in zip(ast.walk(t), ast.walk(root.a)):
+                if not hasattr(n, 'end_col_offset'):
+                    continue
+                s_ = (n.lineno - 1, len(lines[n.lineno - 1].encode()[:n.col_offset].decode()))
+                e_ = (n.end_lineno - 1, len(lines[n.end_lineno - 1].encode()[:n.end_col_offset].decode()))
+                if s_ < (ln, aa) and (ln, bb) < e_:
+                    if best is None or (s_, tuple(-x for x in e_)) > best[0]:
+                        best = ((s_, tuple(-x for x in e_)), m)
+            new_src = '\n'.join(lines[:ln] + [lines[ln][:aa] + ' ' * kk + lines[ln][bb:]] + lines[ln + 1:])
+            try:
+                ast.parse(new_src)
+                still_valid = ast.dump(ast.parse(new_src)) == ast.dump(t)
+            except SyntaxError:
+                still_valid = False
+        assume(best is not None and still_valid)      # e.g. deleting the blank in 'p if q' merges tokens: not a trivia-preserving edit
+        node = best[1].f
+        try:
+            node.put_src(' ' * kk, ln, a, ln, b, 'offset')
+        except pc.EXPECTED_RAISES as ex:
+            fail('put_src_offset.refused', (key, (ln, aa, bb, kk), type(node.a).__name__, type(ex).__name__, str(ex)[:150]))
+        with pc.untraced():
+            check(pc.R(root.src) == new_src, 'put_src_offset.source_is_not_the_splice', (pc.R(root.src), new_src))
+            pc.o_parse(root, f'put_src_offset.{key}')
+        cover('ok')
+    return fn
+
+
+for _k in P_SRCS:
+    CELLS.append(Cell(f'P1.put_src_offset[{_k}]', _mk_gap(_k), 'P', ['fst.fst.FST.put_src', 'fst.fst_core._put_src', 'fst.fst_core._params_offset', 'fst.fst_core._offset', 'fst.fst_misc.clip_src_loc'],
+                      f'carrier {_k}: every inter-token gap found by tokenize ({len(_gaps(P_SRCS[_k]))}), symbolic sub-range [a, b] of the gap replaced by k in 0..3 blanks, called on the innermost node strictly containing the spot '
+                      '(computed from CPython positions); result must be the splice and re-parse to the live tree incl. positions (finite choice + pinned columns)',
+                      tier='quick' if _k in ('expr', 'uni', 'deco') else 'thorough', budget=600, per_path=60, out='multi-line replacements; comments as replacement text', reset=pc.reset_globals))
